@@ -183,7 +183,8 @@ Inductive op :=
 | Exit (i : inst) (k : fkind)               (* the container under running/<i> ends: flag file + monitor cleanup *)
 | Flag (c : cont) (k : fkind)               (* a flag file appears in an existing container directory *)
 | CleanupDone (l : lname)                   (* cleanup.Cleanup.invoke(<l>) completes *)
-| Restart.                                  (* the manager process restarts *)
+| Restart                                   (* the manager process restarts *)
+| Boot.                                     (* node start: run.sh clears running/ and cleanup/, the manager starts *)
 
 Definition mark_finished (s : st) (c : cont) : st :=
   if memb cont_eqb c (finished s) then s else with_finished s (c :: finished s).
@@ -224,6 +225,7 @@ Definition step (s : st) (o : op) : st :=
       | Some c => with_cleanup (with_apps s (mdel cont_eqb (apps s) c)) (mdel lname_eqb (cleanup s) l)
       end
   | Restart => with_queue (with_active s false) []
+  | Boot => with_queue (with_active (with_cleanup (with_running s []) []) false) []
   end.
 
 Definition run (ops : list op) (s : st) : st := fold_left step ops s.
